@@ -48,6 +48,37 @@ def predicate(name, r):
                 if e.get("k") == "t.edit" and (e.get("i", 0) != e.get("j", 0)):
                     return True
         return False
+    if name == "container_removed_and_two_undos":
+        created = False
+        for st in trace:
+            for e in st.get("edits") or []:
+                if e.get("k") == "a.new" or (e.get("k") == "o.new" and e.get("p")):
+                    created = True
+        removed = any(k in ks for k in ("a.del", "a.set", "o.del", "o.set", "o.new"))
+        undos = sum(1 for st in trace if st.get("op") in ("undo", "redo"))
+        return created and removed and undos >= 2
+    if name == "text_edit_and_undo":
+        return "t.edit" in ks and len(trace) >= 30 and any(st.get("op") in ("undo", "redo") for st in trace)
+    if name == "tree_edit_and_undo":
+        return any(k.startswith("r.") for k in ks) and any(st.get("op") in ("undo", "redo") for st in trace)
+    if name == "undo_after_sync":
+        synced = False
+        for st in trace:
+            if st.get("op") in ("sync", "detach", "attach") and synced is False:
+                if st.get("op") != "attach":
+                    synced = True
+            if st.get("op") in ("undo", "redo") and synced:
+                return True
+        # quiescent rounds after the trace also count: an undo anywhere plus the final syncs
+        return any(st.get("op") in ("undo", "redo") for st in trace) and (r.get("violation") or {}).get("step", 0) >= len(trace)
+    if name == "multi_edit_update_then_undo":
+        multi = False
+        for st in trace:
+            if st.get("op") == "update" and len(st.get("edits") or []) >= 2:
+                multi = True
+            if st.get("op") in ("undo", "redo") and multi:
+                return True
+        return False
     if name == "same_client_reattach":
         detached = set()
         for st in trace:
@@ -96,12 +127,25 @@ def counterfactual_config(kind, cfg):
         cfg["client_disable_gc"] = True
         cfg["server_disable_gc"] = True
         return cfg
-    if kind in ("no_dbfault", "uniform_presence_flag", "reattach_as_new_client"):
+    if kind in ("no_dbfault", "uniform_presence_flag", "reattach_as_new_client", "no_undo_redo", "split_updates"):
         return cfg
     raise ValueError("unknown counterfactual " + kind)
 
 
 def counterfactual_trace(kind, trace):
+    if kind == "no_undo_redo":
+        return [st for st in trace if st.get("op") not in ("undo", "redo")]
+    if kind == "split_updates":
+        out = []
+        for st in trace:
+            if st.get("op") == "update" and len(st.get("edits") or []) >= 2 and not st.get("fail"):
+                for e in st["edits"]:
+                    s2 = dict(st)
+                    s2["edits"] = [e]
+                    out.append(s2)
+            else:
+                out.append(st)
+        return out
     if kind == "reattach_as_new_client":
         out = []
         detached = set()
